@@ -147,6 +147,7 @@ SRC_TIES = {
     'C16': 'danger_space: half height and both scan tests (scan shapes matched structurally)',
     'C17': 'Ammo.get_velocity_for_temp and calc_powder_sens with its guard',
     'C19': 'Sight.get_adjustment with _adjust_sfp_reticle_steps per focal plane',
+    'C20': 'helpers.py: apex bisection, the monotone conditions of the distance / strict-time look-ups, key, neighbour comparison and deviation test of the nearest-time look-up',
 }
 
 checks = []
